@@ -27,7 +27,7 @@ def work(job):
     qn, case = job
     if W is None:
         W = World(C.REGISTRY, C.LEMMAS)
-    con = [c for c in C.REGISTRY if c.qualname == qn][0]
+    con = [c for c in C.REGISTRY if c.key[1] == qn][0]
     t0 = time.time()
     fr = run_contract(W, con, only_case=case)
     bad = []
@@ -44,7 +44,7 @@ def work(job):
 if __name__ == "__main__":
     jobs = []
     for qn in sys.argv[1:]:
-        con = [c for c in C.REGISTRY if c.qualname == qn][0]
+        con = [c for c in C.REGISTRY if c.key[1] == qn][0]
         jobs += [(qn, c) for c in con.cases]
     t0 = time.time()
     with mp.get_context("fork").Pool(14) as pool:
